@@ -22,6 +22,15 @@ func runReplay(prop, file string) int {
 	must(json.Unmarshal(data, &rp))
 	op, _ := rp["op"].(string)
 	text, _ := rp["text"].(string)
+	if op == "panic" { // the whole run of the property was cut short by a panic in the implementation: run it again
+		pn := safely(func() { props[prop](newOut(os.TempDir()+"/verif-replay"), newRng(1), false) })
+		if pn != nil {
+			fmt.Println("still panics:", pn)
+			return 1
+		}
+		fmt.Println("the run no longer panics")
+		return 0
+	}
 	if fn, ok := replayers[op]; ok {
 		o := newOut(os.TempDir() + "/verif-replay")
 		fn(o, rp)
